@@ -161,7 +161,7 @@ def gen_cases(rng, tier):
     shp = shapes()
     firsts = list(range(8))
     # A: every shape x every first class x next_header fields (product when small, else sampled)
-    per = 1500 if big else 250
+    per = 3000 if big else 250
     li = 0
     for s in shp:
         k = len(s)
@@ -179,7 +179,7 @@ def gen_cases(rng, tier):
                 cases.append(_e6(_nh(rng, fc), _nh(rng, li & 7), toks))
                 li += 1
     # B: consistently linked chains, RFC order or permuted, some with one broken link
-    for _ in range(320000 if big else 80000):
+    for _ in range(700000 if big else 80000):
         s = shp[rng.below(len(shp))]
         order = [k for k in RFC if k in s]
         if not rng.chance(3, 10):
@@ -208,7 +208,7 @@ def gen_cases(rng, tier):
         toks = {kind: _tok(rng, pools, kind, links[kind]) for kind in order}
         cases.append(_e6(first, _nh(rng), toks))
     # C: raw byte chains through from_slice / from_slice_lax
-    for _ in range(150000 if big else 24000):
+    for _ in range(300000 if big else 24000):
         n = rng.below(9)
         seq = [("h", "d", "r", "f", "a", "d", "r", "a")[rng.below(8)] for _ in range(n)]
         if rng.chance(1, 2) and seq:
